@@ -104,12 +104,13 @@ type Engine struct {
 
 // Case is one generated case.
 type Case struct {
-	Kind   string  `json:"kind"` // assign | stored | engine
-	Sets   []Set   `json:"sets"`
-	Dir    string  `json:"dir,omitempty"` // assign: fresh | empty | existing
-	Stored *Stored `json:"stored,omitempty"`
-	Engine *Engine `json:"engine,omitempty"`
-	Conc   *Conc   `json:"conc,omitempty"`
+	Kind     string        `json:"kind"` // assign | stored | engine
+	Sets     []Set         `json:"sets"`
+	Dir      string        `json:"dir,omitempty"` // assign: fresh | empty | existing
+	Stored   *Stored       `json:"stored,omitempty"`
+	Engine   *Engine       `json:"engine,omitempty"`
+	Conc     *Conc         `json:"conc,omitempty"`
+	Manifest *ManifestCase `json:"manifest,omitempty"`
 }
 
 // Doc is the replay document.
@@ -619,6 +620,9 @@ func classify(c *Case) (bool, []string) {
 		if len(c.Sets) == 1 {
 			classes = append(classes, "assign:single_field")
 		}
+	case "manifest":
+		nt = c.Manifest != nil && len(c.Manifest.Updates) > 0
+		classes = append(classes, fmt.Sprintf("manifest:updates_%d", len(c.Manifest.Updates)))
 	case "concurrent":
 		if c.Conc != nil && c.Conc.Valid != "" && c.Conc.Invalid != "" {
 			nt = true
@@ -682,6 +686,8 @@ func runCase(c *Case) *Fail {
 		return runStored(c)
 	case "concurrent":
 		return runConc(c)
+	case "manifest":
+		return runManifest(c)
 	case "engine":
 		if c.Engine != nil && c.Engine.Mode == "valid" {
 			return runEngineValid(c)
